@@ -160,21 +160,21 @@ _COMMON_NOTE = (" Trusted: Coq 8.16.1 kernel and vm_compute (no axioms, Print As
                 "Gallina model, tied to /repo only by this run's correspondence; the Go harness, its oracles and the os package as reference; see TRUSTED_BASE.md. "
                 "Open findings are listed in known_findings.json and printed as KNOWN-FINDING.")
 LEVELS = {
-    "C01": ("Proved (all well-formed fault-free states, all arguments): exact success condition, resulting store and error class of Stat, Mkdir, Remove, Chmod, Chtimes of the key-value FS model; every state reachable by namespace histories is such a state (C03). "
+    "C01": ("Proved (all well-formed fault-free states, all arguments): exact success condition, resulting store and error class of Stat, Mkdir, Remove, Chmod, Chtimes, OpenFile (every flag combination) and Rename of a non-directory of the key-value FS model; ReadFile returns the record's bytes; WriteFullFile of a new name then ReadFile returns the data; MkdirAll success => the directory exists and nothing is lost, failure => unchanged; RemoveAll success => the name is gone; every state reachable by namespace histories is such a state (C03). "
             "Checked every run: the model agrees with the implementation on success/failure, data and whole tree after every step of generated histories, and the implementation agrees with the Go os package on the same histories.",
-            "Not proved: specifications of OpenFile flag combinations, WriteFullFile, MkdirAll, RemoveAll, Rename (model=code and code=os comparisons only). Refuted and listed as known finding: ReadFile of a directory."),
+            "Not proved: exact specifications of WriteFullFile over an existing file, RemoveAll, Rename of directories, MkdirAll's exact success condition (model=code and code=os comparisons only). Refuted and listed as known finding: ReadFile of a directory."),
     "C02": ("Proved over the handle model (all states, offsets, lengths): Read/ReadAt return the current bytes with the EOF rule, writes zero-fill gaps, O_APPEND lands at the end, a read-only handle never changes contents, a write-only handle never reads, rejected writes/truncates change nothing. "
             "Checked every run: model = implementation and implementation = os.File on multi-handle histories including a structured coherence family.",
             "Refuted (known finding): byte reads of a directory handle succeed with io.EOF. Not modelled: real os.File; it is the executable reference."),
-    "C03": ("Proved: every history of namespace operations (Mkdir, MkdirAll, OpenFile+Close, WriteFullFile, Remove, RemoveAll, Rename incl. directory trees, Chmod, Chtimes, Stat, ReadDir, ReadFile), successful or failed, keeps the model's store a well-formed tree (root directory, real-name keys, every parent a directory key); no bound on length or depth. "
+    "C03": ("Proved: every history of namespace operations (Mkdir, MkdirAll, OpenFile+Close, WriteFullFile, Remove, RemoveAll, Rename incl. directory trees, Chmod, Chtimes, Stat, ReadDir, ReadFile), successful or failed, keeps the model's store a well-formed tree (root directory, real-name keys, every parent a directory key); no bound on length or depth; a Sub view keeps its parent well-formed and every constituent of a mount FS stays well-formed (all operations but Rename); the mount table's consistency with its directories is refuted (known finding). "
             "Checked every run: model = implementation; the invariant is evaluated on mem, keyvalue over a plain store, mount and Sub after every step over the closure of candidate paths.",
-            "Hypothesis of the theorem: no store failure. Mount and Sub compositions are covered by the invariant oracle only (two known findings). Writes through handles that outlive their path are C17's known finding."),
+            "Hypothesis of the theorem: no store failure. The composition-level invariant (mount points and view roots exist) is covered by the invariant oracle only (two known findings, signatures restricted to operations covering a mount point / the view root). Writes through handles that outlive their path are C17's known finding."),
     "C04": ("Proved: ValidPath specification; for every operation of the key-value model, the Sub view and the mount FS, an invalid name (either name for Rename) leaves the whole state unchanged and fails with ErrInvalid naming the caller's path; valid names are never refused as invalid. "
             "Checked every run: model = implementation on 1.5k cases; 8k name x operation x layer cases (incl. os, cache, tar) against the gate's expected behaviour.",
             "os, cache and tar layers are oracle-only."),
-    "C05": ("Proved: in every state (store failures included) each failure of Stat, Mkdir, Remove, Chmod, Chtimes and OpenFile of the key-value model is a PathError naming exactly the caller's path; on well-formed fault-free states the sentinel for each situation (invalid, exists, missing, below a file, not empty, root); Rename with an invalid name gives a LinkError with both names. "
-            "Checked every run: full error values model = implementation; type, path and sentinel implementation = os on every layer.",
-            "Not proved: Rename's other failures, MkdirAll/RemoveAll, and the composition layers. Two known findings (precedence; ancestor named by RemoveAll)."),
+    "C05": ("Proved: in every state (store failures included) each failure of Stat, Mkdir, Remove, Chmod, Chtimes and OpenFile of the key-value model is a PathError naming exactly the caller's path, also through a generic Sub view and a mount FS (the added prefix is exactly the stripped one); on well-formed fault-free states the sentinel for each situation (invalid, exists, missing, below a file, not empty, root); Rename with an invalid name gives a LinkError with both names. "
+            "Checked every run: full error values model = implementation (mem); type, path and sentinel implementation = os on mem, Sub(mem, a/ab), a mount FS and os.FS under two Sub roots.",
+            "Not proved: Rename's other failures, MkdirAll/RemoveAll; cache and tar layers are exercised by C04/C10/C12 only. Two known findings (precedence; ancestor named by RemoveAll)."),
     "C06": ("Proved over the mount model: routing is independent of the table's iteration order, selects the longest whole-element prefix, never confuses look-alike prefixes; only the routed constituent changes and the result is the direct one; AddMount succeeds at most/exactly once per point. "
             "Checked every run: routes of all candidate paths and operation histories model = implementation; per-constituent snapshots against a flat reference.",
             "Cross-mount Rename's error class and the covered directory's mode in listings are not constrained (see DESIGN.md 0.6). Concurrency of AddMount is exercised, not proved."),
@@ -199,9 +199,9 @@ LEVELS = {
     "C13": ("Proved over the pubsub/Open protocol model: a wait is released by emit or cancel and by nothing else and stays released; a successful Open returns a complete entry; failures close; no opener stays stuck; reader completion precedes cancellation handling. "
             "Checked every run: scripted pubsub schedules with real goroutines; streamed archives with stalls, truncation, read errors, cancellation and failing destinations with 1..8 openers.",
             "Go's scheduler and context package are trusted."),
-    "C14": ("Proved: when the single failing store call fires inside Mkdir, Remove, Chmod or Chtimes the operation returns an error and every record is unchanged; a rejected Set is reported; a failed Get is never mistaken for not-exist; the fault fires at most once; the model has no panic outcome. "
+    "C14": ("Proved: when the single failing store call fires inside Mkdir, Remove, Chmod, Chtimes or the Rename of a regular file the operation returns an error (and every record is unchanged for the first four); in every state a reported success of Mkdir/Remove/Chmod implies the record is (not) in the store; a rejected Set is reported; a failed Get is never mistaken for not-exist; the fault fires at most once; the model has no panic outcome. "
             "Checked every run: every history x every fault index, plain and transaction store: model = implementation; success despite a failed call only if result and store equal the failure-free ones; view = store afterwards.",
-            "Not proved for OpenFile, WriteFile, Rename, MkdirAll, RemoveAll and handle operations (the code ignores failures of look-ups it did not need there)."),
+            "Not proved for OpenFile, WriteFile, Rename of directories, MkdirAll, RemoveAll and handle operations (the code ignores failures of look-ups it did not need there)."),
     "C15": ("Proved over the interleaving model of Mkdir/Remove/Stat: linearizability is REFUTED (two witnesses, matching the known findings); unrelated programs commute; single-transaction operations are linearizable; transactions are exclusive and released. "
             "Checked every run: all interleavings at store-transaction granularity of small programs vs all sequential orders; anomalies are minimised and identified by the shape of the minimal witness.",
             "Partial: the property as stated does not hold of the code (three known findings). Data races under free-running goroutines are not explored by this check."),
